@@ -208,6 +208,8 @@ METHODS = ['shepperd', 'hughes', 'chiaverini', 'itzhack', 'sarabandi']
 
 # documented in-place operations: the *receiver* may change
 INPLACE_RECEIVER = {'normalize', 'remove_jumps', 'slerp_nan'}
+# callables that draw from a module-level PRNG the harness does not own: only argument mutation is judged
+NOT_REPEATABLE = {'filters.Sensors(quaternions)'}
 
 
 class Entry:
@@ -250,7 +252,8 @@ def build_registry():
                'EKF(magnetic_ref)', 'ROLEQ(magnetic_ref)', 'OLEQ(magnetic_ref)', 'FQA(mag_ref)', 'TRIAD(v1,v2)', 'UKF(P)', 'Fourati(magnetic_dip)',
                'Tilt(acc,mag)', 'SAAM(acc,mag)', 'FQA(acc,mag)', 'QUEST(acc,mag)', 'FLAE(acc,mag)', 'Davenport(acc,mag)', 'FAMC(acc,mag)', 'TRIAD(w1,w2)',
                'OLEQ(acc,mag)', 'AQUA(acc,mag)', 'EKF.Omega', 'EKF.f', 'EKF.dfdq', 'EKF.h', 'EKF.dhdq', 'UKF.compute_sigma_points', 'AQUA.Omega',
-               'ROLEQ.attitude_propagation', 'ROLEQ.oleq', 'FKF.Omega4', 'FKF.measurement_quaternion_acc_mag', 'aqua.slerp_I', 'aqua.adaptive_gain'):
+               'ROLEQ.attitude_propagation', 'ROLEQ.oleq', 'FKF.Omega4', 'FKF.measurement_quaternion_acc_mag', 'aqua.slerp_I', 'aqua.adaptive_gain',
+               'Sensors(quaternions)', 'wmm.geodetic2spherical'):
         reg.append(Entry(f'filters.{fn}', 'filter', fn, 'filters', fn, []))
     return reg
 
@@ -484,6 +487,18 @@ def prepare_filter(entry, ctx):
     if fn == 'FKF.measurement_quaternion_acc_mag':
         inst = F.FKF()
         return fn, (lambda: inst.measurement_quaternion_acc_mag(q, a1, m1)), [q, a1, m1], None
+    if fn == 'Sensors(quaternions)':
+        # draws its noise from a module-level generator: judged for argument mutation only (see NOT_REPEATABLE)
+        Q = ctx.quats() if r.random() < 0.5 else ctx.hist.truth[max(0, ctx.k - 12):ctx.k + 1].copy()
+        if len(Q) < 10:
+            Q = ctx.hist.truth[:min(ctx.hist.n, 12)].copy()
+        gref = np.array([0.0, 0.0, 9.81])
+        mref = ctx.vec('mag', shared_ok=False)
+        return fn, (lambda: ahrs.Sensors(quaternions=Q, reference_gravitational_vector=gref, reference_magnetic_vector=mref).accelerometers), [Q, gref, mref], None
+    if fn == 'wmm.geodetic2spherical':
+        from ahrs.utils.wmm import geodetic2spherical
+        lat, lon, h = np.array(r.uniform(-1.5, 1.5)), np.array(r.uniform(-3, 3)), np.array(r.uniform(0, 100.0))
+        return fn, (lambda: geodetic2spherical(lat, lon, h)), [lat, lon, h], None
     if fn == 'aqua.slerp_I':
         return fn, (lambda: AQ.slerp_I(q, r_ratio, 0.9)), [q], None
     if fn == 'aqua.adaptive_gain':
